@@ -1,7 +1,7 @@
 SPECIFICATION Spec
 CONSTANTS
   Deviations <- AllDevs
-  Families <- F_select
+  Families <- G_d
   Wide = FALSE
 INVARIANT AtenWellFormed
 INVARIANT DesignOK
